@@ -117,11 +117,15 @@ func typedSplice[T any](e *enum.E, tname string, vals []T, same func(a, b T) boo
 				e.Call()
 				if c := slices.Clone(s); !eq(c, orig) {
 					fail("Clone", "Clone(%v) = %v", orig, c)
+				} else {
+					e.Keep("Clone", c, rp)
 				}
 				other := build(3, 1, off+1)
 				e.Call()
 				if c := slices.Concat(s, other); !eq(c, append(append([]T{}, orig...), other...)) {
 					fail("Concat", "Concat(%v, %v) = %v", orig, other, c)
+				} else {
+					e.Keep("Concat", c, rp)
 				}
 				for g := 0; g <= 3; g++ {
 					s = build(n, sp, off)
@@ -133,6 +137,8 @@ func typedSplice[T any](e *enum.E, tname string, vals []T, same func(a, b T) boo
 					}
 					if !eq(grown, want) {
 						fail("Grow", "Grow(%v, %d) = %v, want %v", orig, g, grown, want)
+					} else {
+						e.Keep("Grow", grown, rp)
 					}
 				}
 			}
@@ -150,6 +156,9 @@ func typedSplice[T any](e *enum.E, tname string, vals []T, same func(a, b T) boo
 				for _, cnt := range []int{n, 7 * n, 33 + n, 260 + n} {
 					e.Call()
 					rep := slices.Repeat(v, cnt)
+					if cnt < 64 {
+						e.Keep("Repeat", rep, rp)
+					}
 					if len(rep) != cnt {
 						e.Fail("Repeat|length", rp, "[]%s: Repeat(%v, %d) has length %d", tname, v, cnt, len(rep))
 					}
@@ -376,6 +385,7 @@ func main() {
 	{
 		nz := math.Copysign(0, -1)
 		f64 := func(a, b float64) bool { return math.Float64bits(a) == math.Float64bits(b) }
+		typedSplice(e, "int", []int{0, 1, 2, 3, -1}, func(a, b int) bool { return a == b })
 		typedSplice(e, "float64", []float64{nz, 0, math.NaN(), 1.5, math.Inf(-1)}, f64)
 		typedSplice(e, "float32", []float32{float32(nz), 0, float32(math.NaN()), 2.5}, func(a, b float32) bool { return math.Float32bits(a) == math.Float32bits(b) })
 		typedSplice(e, "complex128", []complex128{complex(nz, 0), complex(0, nz), 0, complex(1, nz)}, func(a, b complex128) bool { return f64(real(a), real(b)) && f64(imag(a), imag(b)) })
